@@ -2036,7 +2036,11 @@ class unyt_array(np.ndarray):
                 out_arr = ret_class(out_arr, unit, bypass_validation=True)
         if out is not None:
             if mul != 1:
-                multiply(out, mul, out=out)
+                # scale the raw buffer: going through unyt's own multiply would
+                # re-apply the unit simplification coefficient and recurse forever
+                # (e.g. unyt_array([1.0, 2.0], "km/m").mean())
+                out_view = out.view(np.ndarray)
+                np.multiply(out_view, mul, out=out_view)
                 if np.shares_memory(out_arr, out):
                     mul = 1
             if isinstance(out, unyt_array):
